@@ -1,6 +1,7 @@
 import PSO.Proofs.FramingE2E
 import PSO.Proofs.FramingDuplex
 import PSO.Proofs.FramingDrain
+import PSO.Proofs.FramingCallback
 
 /-! A tiny concrete codec and concrete event lists, used by the non-vacuity `example`s of Props/C13. -/
 namespace PSO.Framing.Ex
@@ -79,5 +80,18 @@ theorem dripsWritable : ∀ e ∈ drips, Writable e.2 := by
   · exact ⟨1, [], rfl, by decide, by simp⟩
   · exact ⟨1, [], rfl, by decide, by simp⟩
   · exact ⟨1, [.ret 0], rfl, by decide, by simp [BenignSend]⟩
+
+
+/-- an `onDisconnected` callback that dials again and queues `true` on the new connection -/
+def redial : DiscCb Bool := { ok := true, msgs := [true] }
+
+/-- `send false`: the socket takes two bytes, then fails hard (connection lost inside the flush, the callback
+redials and sends); then the connect completes and a WRITE event flushes -/
+def lossy : List (Ev Bool) :=
+  [.send false 1 [.ret 2, .err],
+   .poll { descrOk := true, rd := false, wr := true, er := false, now := 2, soErr := false, onConnDisc := false,
+           sends := [], recvs := [] },
+   .poll { descrOk := true, rd := false, wr := true, er := false, now := 3, soErr := false, onConnDisc := false,
+           sends := [.ret 100], recvs := [] }]
 
 end PSO.Framing.Ex
